@@ -61,6 +61,10 @@ def main():
                     rc = 2
                     continue
                 for r in json.load(open(out)):
+                    if r[0] == "RERUN-DIFF":
+                        print(f"   WARM RE-RUN DIFFERENCE (same process, later): {r[1]} vs {r[2]}")
+                        rc = 1
+                        continue
                     rows[variant][r[0]] = r[1:]
             same = sum(1 for s in rows["a"] if rows["a"][s] == rows["b"].get(s))
             diff_same = [s for s in rows["a"] if rows["a"][s] != rows["b"].get(s)]
